@@ -18,7 +18,7 @@ func TestC10(t *testing.T) {
 	nrun.Main(t, &nrun.Check{
 		ID: "C10", TestName: "TestC10", Plans: escen.AllPlans(),
 		QuickTime: 120 * time.Second, ThorTime: 18 * time.Minute,
-		Rule:   "engine N. Generated family EG (escen/gen.go): every (configuration: KIP-890p2|TV1 broker x cooperative|eager balancer, transaction timeout 6 s; script of member A: one or two rounds PollRecords(n)/Begin/Produce per record/Flush/End(TryCommit|TryAbort) with the application's think time (none | 1.37 s > heartbeat | 8 s > transaction timeout) before Begin, inside the transaction, after Flush or after End, then Close; gate at which member B is created: start | after A's 1st poll | after A's 2nd poll | never) on the default schedule in the quick tier (4 x 210 x 4 = 3360 executions), a larger family (poll sizes 2|3, A staying, B thinking, 42000 combinations) plus single deviations, time-capped, in the thorough tier. Hand-written scenarios: consume-transform-produce pipeline with two controlled GroupTransactSession members (A from the start, B joining after A's first (eager) or second (cooperative) round so that the rebalance lands in A's open transaction, A closing after 4 rounds; each round = PollRecords(2), Begin, one output per input, 1.37 s processing time, Flush, End) over 2x4 input records; every order of application calls (PollRecords/Begin/Produce/Flush/End/Close), frame deliveries, timer ticks and injected faults (connection kill before/after handling on Produce, AddPartitionsToTxn, AddOffsetsToTxn, TxnOffsetCommit, EndTxn; CONCURRENT_TRANSACTIONS and COORDINATOR_LOAD_IN_PROGRESS on the transactional requests) within k deviations of the default order, for cooperative-sticky and range (eager) balancing on a KIP-890p2 broker and cooperative-sticky on a TV1 broker. Quick tier: all single deviations (k=1, unrestricted). Thorough tier: k=1 unrestricted, k=2 restricted to End windows (both deviations among: application steps, tick, frames of AddOffsetsToTxn/TxnOffsetCommit/EndTxn/Heartbeat/JoinGroup/SyncGroup/OffsetFetch/LeaveGroup and their faults), time-capped. distinct = distinct terminal outcomes (per member sequence of End results with the input identities covered)",
+		Rule:   "engine N. Generated family EG (escen/gen.go): every (configuration: KIP-890p2|TV1 broker x cooperative|eager balancer, transaction timeout 6 s, plus two short-session configurations (session timeout 2.5 s) in which the broker holds the EndTxn(commit) of A's first (thorough: first or second) committing transaction for 4 s, so that A is removed from the group while its transactional offset commit is pending; script of member A: one or two rounds PollRecords(n)/Begin/Produce per record/Flush/End(TryCommit|TryAbort) with the application's think time (none | 1.37 s > heartbeat | 8 s > transaction timeout) before Begin, inside the transaction, after Flush or after End, then Close; gate at which member B is created: start | after A's 1st poll | after A's 2nd poll | never) on the default schedule in the quick tier (6 x 210 x 4 = 5040 executions), a larger family (poll sizes 2|3, A staying, B thinking, 75600 combinations) plus single deviations, time-capped, in the thorough tier. Hand-written scenarios: consume-transform-produce pipeline with two controlled GroupTransactSession members (A from the start, B joining after A's first (eager) or second (cooperative) round so that the rebalance lands in A's open transaction, A closing after 4 rounds; each round = PollRecords(2), Begin, one output per input, 1.37 s processing time, Flush, End) over 2x4 input records; every order of application calls (PollRecords/Begin/Produce/Flush/End/Close), frame deliveries, timer ticks and injected faults (connection kill before/after handling on Produce, AddPartitionsToTxn, AddOffsetsToTxn, TxnOffsetCommit, EndTxn; CONCURRENT_TRANSACTIONS and COORDINATOR_LOAD_IN_PROGRESS on the transactional requests) within k deviations of the default order, for cooperative-sticky and range (eager) balancing on a KIP-890p2 broker and cooperative-sticky on a TV1 broker. Quick tier: all single deviations (k=1, unrestricted). Thorough tier: k=1 unrestricted, k=2 restricted to End windows (both deviations among: application steps, tick, frames of AddOffsetsToTxn/TxnOffsetCommit/EndTxn/Heartbeat/JoinGroup/SyncGroup/OffsetFetch/LeaveGroup and their faults), time-capped. distinct = distinct terminal outcomes (per member sequence of End results with the input identities covered)",
 		Assume: []string{"kfake is the broker", "an uncontrolled GroupTransactSession member of the same group drains the remaining input after the explored phase", "read_committed view computed from the raw log of the output partition", "default RequestRetries (an End whose EndTxn outcome is unconfirmed after 20 retries is outside the explored space)", "synctests build of xsync", "goroutine micro-interleavings inside one event are the Go runtime's"},
 	})
 }
